@@ -101,14 +101,16 @@ pub fn eval_text(text: &str, st: &mut Stats) -> Vec<Fail> {
                 fails.push(Fail::new(format!("panic|{}|{}", which, panic_class(&p)), format!("{:?}: {}", text, p)));
                 continue;
             }
-            Ok(Err(_)) => {
+            Ok(Err(e)) => {
                 st.bump("rejected");
+                st.outcome(&(is_doc, crate::props::c01::err_class(&format!("{:?}", e))));
                 if let Read::WellFormed(_) = reference {
                     st.bump("rejected_although_reference_accepts");
                 }
             }
             Ok(Ok(node)) => {
                 st.bump("accepted");
+                st.outcome(&(is_doc, read(&xot, node).canon()));
                 match &reference {
                     Read::IllFormed(reason) if obligatory(reason) => {
                         fails.push(Fail::new(format!("accepted-ill-formed|{}|{}", which, reason), format!("{:?} is ill-formed ({}) but {} accepts it as {}", text, reason, which, read(&xot, node).show())));
@@ -458,7 +460,7 @@ pub fn run(tier: Tier) -> i32 {
         "evaluations": stats.evals,
         "distinct_nontrivial": total,
         "samples": samples,
-        "rule": format!("(a) every string of length <= {} over 18 markup symbols; (b) every sequence of <= {} fragments from a 39-item token menu (tags with synonymous prefixes, duplicate attributes / declarations, references incl. &#0; &#xD800; &#+65;, comments, PIs, CDATA, ]]>, DOCTYPEs, XML declarations 1.0 / 1.1); (c) every single-character deletion / duplication / replacement / insertion / truncation and 12 structural edits of the default spellings of the C02 documents (thorough: also of their one-deviation spellings); (d) every byte string of length <= {} and 8 BOMs x 40 encoding labels x 3 bodies; each to parse and parse_fragment (text) / parse_bytes; oracle: no panic; texts the reference recogniser XmlRead classifies ill-formed for a reason in the property's catalogue are rejected; whatever is accepted equals the reference reader's tree (when it has one), passes validate_well_formed_document, has unique attributes / declarations, serialises, and reparses equal; distinct = number of inputs", l, tl, bl),
+        "rule": format!("(a) every string of length <= {} over 18 markup symbols; (b) every sequence of <= {} fragments from a 39-item token menu (tags with synonymous prefixes, duplicate attributes / declarations, references incl. &#0; &#xD800; &#+65;, comments, PIs, CDATA, ]]>, DOCTYPEs, XML declarations 1.0 / 1.1); (c) every single-character deletion / duplication / replacement / insertion / truncation and 12 structural edits of the default spellings of the C02 documents (thorough: also of their one-deviation spellings); (d) every byte string of length <= {} and 8 BOMs x 40 encoding labels x 3 bodies; each to parse and parse_fragment (text) / parse_bytes; oracle: no panic; texts the reference recogniser XmlRead classifies ill-formed for a reason in the property's catalogue are rejected; whatever is accepted equals the reference reader's tree (when it has one), passes validate_well_formed_document, has unique attributes / declarations, serialises, and reparses equal; distinct = distinct (entry point, resulting tree or error variant)", l, tl, bl),
     });
     ctx.finish(stats, cov, vec!["XmlRead answers Unknown for anything it does not positively classify; only IllFormed(reason in catalogue) creates an obligation".into(), "a process abort (stack overflow, allocation failure) would surface as a machinery error of the driver, never as a pass".into()])
 }
